@@ -87,7 +87,21 @@ EvFlip ==
              THEN {"C03.pixelDecode"} ELSE {})
   /\ v_l' = v_l + 1 /\ UNCHANGED v_c
 
-Next == EvRender \/ EvReadBack \/ EvFlip
+\* the rendering with delta pixels appended (delta > 0) or removed (delta < 0), same width
+EvResize ==
+  /\ IsEvent("Resize")
+  /\ LET e == Events[v_l]
+         n == NPix + e.delta
+         want == IF n % Cols0 # 0 THEN "DataSize" ELSE IF SizeByDims(n \div Cols0, Cols0) = {} THEN "SymbolSize" ELSE "AnyErr" IN
+     v_fails' = v_fails
+       \cup (IF e.parse.kind \notin {"Ok", "Err"} THEN {"C05.parsePanic"} ELSE {})
+       \cup (IF e.decode.kind \notin {"Ok", "Err"} THEN {"C05.decodePanic"} ELSE {})
+       \cup (IF e.delta # 0 /\ e.parse.kind = "Ok" THEN {"C08.acceptsDeviation"} ELSE {})
+       \cup (IF e.delta # 0 /\ e.parse.kind = "Err" /\ want # "AnyErr" /\ e.parse.err # want THEN {"C08.shapeError"} ELSE {})
+       \cup (IF e.delta # 0 /\ e.decode.kind = "Ok" THEN {"C08.decodeAcceptsDeviation"} ELSE {})
+  /\ v_l' = v_l + 1 /\ UNCHANGED v_c
+
+Next == EvRender \/ EvReadBack \/ EvFlip \/ EvResize
 Terminal == v_l = Len(Events) + 1 \/ ~(S0 \in Names /\ Len(Cw) = Total(S0))
 FinalFails == v_fails \cup (IF S0 \in Names /\ Len(Cw) = Total(S0) THEN {} ELSE {"C08.badCase"})
 Verdict == Terminal => PrintT(ToJson([id |-> Case.id, fails |-> FinalFails, n |-> v_l - 1]))
